@@ -273,6 +273,7 @@ _ep_cache = {}
 def error_predicates(P, file_):
     """Static bool helpers of a file whose every `return false` sits with a store of a failure constant to a
     `status` member: `if (!in_bounds(dec, n, MAX)) return;` is then an error exit of the caller."""
+    _ep_cache = P.__dict__.setdefault("_memo", {}).setdefault("error_predicates", {})
     if file_ in _ep_cache:
         return _ep_cache[file_]
     out = set()
